@@ -937,6 +937,8 @@ const ENV_KEYS: [&str; 4] = ["TZ", "LANG", "LC_ALL", "LC_TIME"];
 
 thread_local! {
     static PANIC_MSG: std::cell::RefCell<Option<String>> = const { std::cell::RefCell::new(None) };
+    /// set while the harness calls the library directly and expects a possible panic
+    pub static QUIET_PANICS: std::cell::Cell<bool> = const { std::cell::Cell::new(false) };
 }
 
 pub fn install_panic_hook() {
@@ -952,7 +954,7 @@ pub fn install_panic_hook() {
         let in_sim = std::thread::current().name() == Some("sim-exec");
         if in_sim {
             PANIC_MSG.with(|p| *p.borrow_mut() = Some(format!("{} at {}", msg, loc)));
-        } else {
+        } else if !QUIET_PANICS.with(|q| q.get()) {
             eprintln!("harness panic: {} at {}", msg, loc);
         }
     }));
